@@ -291,6 +291,9 @@ def run_history(ctx, cfg, ops, faults=None, styled=False, evaluate=True, tag="")
     try:
         for i, op in enumerate(ops):
             err, chars = s.apply_catch(op)
+            if err.startswith("err:Other:"):
+                ctx.check(False, f"{cfg.kind} history: only injected exceptions are raised", (cfg, [o[:3] for o in ops[: i + 1]], fenc),
+                          f"operation {op[:3]!r} raised {err[10:]}, which nobody injected")
             toks = term.tokenize(chars)
             per_op.append(err + ";" + L.enc_tokens(toks))
             written.append(chars)
@@ -492,26 +495,76 @@ def specm_case(cfg, ops, spins=""):
     return "1;" + enc_str_list(trim(rows))
 
 
-def with_case(ctx, cfg, ops, faults, raise_at, body_exc=None):
-    ops = prepare(cfg, ops)
-    chars, raised, ctl, restored, exc, spins = L.run_with(cfg, ops, faults, raise_at, body_exc or L.BodyError)
+def with_case(ctx, cfg, ops, faults, raise_at, body_exc=None, prepared=False, tag=""):
+    if not prepared:
+        ops = prepare(cfg, ops)
+    body_exc = body_exc or L.BodyError
+    chars, raised, ctl, restored, exc, spins, after = L.run_with(cfg, ops, faults, raise_at, body_exc)
     fenc = faults.enc()
-    scr = term.replay(chars, cfg.height)
-    # direct evaluation of `cleanup_on_exception`
+    toks = term.tokenize(chars)
+    scr = term.Screen(height=cfg.height).feed(toks)
+    inp = (cfg, [o[:3] for o in ops], fenc + ":" + faults.exc.__name__, raise_at)
+    # direct evaluation of `cleanup_on_exception`, clause by clause
     finding = None
     if not restored and cfg.kind == "progress" and exc in ("Boom", "BoomKI", "BoomSE", "BoomGE"):
         lv_started = ctl.split(",")[0] == "1"
         # narrow: the display never finished __enter__ (still marked started, the body wrote nothing)
         if lv_started:
             finding = "progress-start-refresh-raises-leaks" if exc == "Boom" else "progress-start-guard-misses-baseexception"
-    ctx.check(restored and scr.visible, f"with {cfg.kind}: cleanup", (cfg, [o[:3] for o in ops], fenc, raise_at),
+    ctx.check(restored and scr.visible, f"with {cfg.kind}: cleanup", inp,
               f"after the block: sys.stdout/sys.stderr restored and hook stack empty = {restored}, cursor visible = {scr.visible}, exception = {exc}", finding=finding)
     injected = raise_at is not None and raise_at <= len(ops)
     if injected and exc is None:
-        ctx.check(False, f"with {cfg.kind}: propagation", (cfg, [o[:3] for o in ops], fenc, raise_at), "the exception raised by the body did not leave the block")
+        ctx.check(False, f"with {cfg.kind}: propagation", inp, "the exception raised by the body did not leave the block")
+    # the exception that leaves the block is one that was injected (renderable / column, body, unknown task id),
+    # never one the teardown produced itself
+    allowed = {faults.exc.__name__, body_exc.__name__, "KeyError", None}
+    ctx.check(exc in allowed, f"with {cfg.kind}: the injected exception propagates", inp,
+              f"{exc} left the block; injected: {sorted(a for a in allowed if a)}")
+    if restored and cfg.terminal and not cfg.dumb and finding is None:
+        hides = sum(t[0] == "HIDE" for t in toks)
+        shows = sum(t[0] == "SHOW" for t in toks)
+        ctx.check(shows == hides, f"with {cfg.kind}: cursor shown once per start", inp,
+                  f"the cursor was hidden {hides} time(s) and shown {shows} time(s)")
+        ctx.check(after == "after\n", f"with {cfg.kind}: prints after the block are plain", inp,
+                  f"a print right after the block wrote {after!r}")
     ctx.case("live_with", [enc_cfg(cfg, spins, faults), cfg.enc_init(), fenc, enc_ops(cfg, ops), enc_opt(raise_at)],
-             L.enc_tokens(term.tokenize(chars)) + "#" + enc_bool(raised) + "#" + ctl, shape=f"{cfg.kind}:{'fault' if fenc != '-' else 'body'}",
+             L.enc_tokens(toks) + "#" + enc_bool(raised) + "#" + ctl, shape=f"{cfg.kind}:{'fault' if fenc != '-' else 'body'}{tag}",
              sample=f"with {cfg!r}: ops={[o[:3] for o in ops]!r} faults={fenc} raise_at={raise_at}")
+
+
+def stop_in_block_cases(ctx, rng, quick):
+    """`with display:` bodies that call stop() / start() themselves, with the failure injected exactly at the
+    refresh that stop (or Progress.start) makes — the teardown runs while an exception is in flight, and the
+    `with` statement's own stop() follows it.  Live and Progress, transient on / off."""
+    n = 0
+    for kind in ("live", "progress"):
+        for transient in (False, True):
+            for (W, H) in ((20, 4),) if quick else ((20, 4), (30, 7)):
+                if kind == "live":
+                    heads = [[], [("R",)], [("P", ["u"], "seg"), ("U", ["a", "b"], True)]]
+                else:
+                    heads = [[("A", "ab", True, 100)], [("A", "ab", True, 100), ("A", "cd", True, 5), ("R",)],
+                             [("A", "ab", True, 100), ("P", ["u"], "seg"), ("H", 0, False, True), ("A", "g", True, 100)]]
+                tails = [[], [("P", ["v"], "seg")], [("S",), ("R",)], [("S",), ("P", ["v"], "seg"), ("X",)], [("X",)]]
+                for head in heads:
+                    for tail in tails:
+                        cfg = L.Cfg(kind, transient, W, H, overflow="ellipsis", init=["F1", "F2"] if kind == "live" else [])
+                        body = prepare(cfg, head + [("X",)] + tail)
+                        probe = []
+                        L.run_with(cfg, body, L.Faults(), None, probe=probe)
+                        for i, op in enumerate(body):
+                            if op[0] not in ("X", "S") or probe[i + 1] == probe[i]:
+                                continue        # this stop / start makes no injectable call
+                            for k in sorted({probe[i], probe[i + 1] - 1}):      # its first and its last call
+                                for exc_cls in ((L.Boom, L.BoomKI) if quick else (L.Boom, L.BoomKI, L.BoomSE, L.BoomGE)):
+                                    with_case(ctx, cfg, body, L.Faults(exact=[k], exc=exc_cls), None, prepared=True, tag=":stop-in-block")
+                                    n += 1
+                                with_case(ctx, cfg, body, L.Faults(from_=k), None, prepared=True, tag=":stop-in-block")
+                                n += 1
+                        # and the body itself raising right after its own stop()
+                        with_case(ctx, cfg, body, L.Faults(), len(head) + 1, rng.choice([L.BodyError, L.BodyKI]), prepared=True, tag=":stop-in-block")
+    ctx.note("stop_in_block_cases", n)
 
 
 # ------------------------------------------------------------------------------------------------
@@ -901,6 +954,8 @@ def run(ctx):
                     with_case(ctx, cfg, body, L.Faults(from_=k, exc=exc_cls), None)
         ctx.note(f"with:exc:{exc_cls.__name__}/{body_exc.__name__}")
         ctx.note(f"with:{kind}:calls{min(ncalls, 10)}")
+    # explicit stop() / start() inside the block, failing at their own refresh
+    stop_in_block_cases(ctx, rng, ctx.quick)
     # Progress with tasks added before the block: the refresh inside start() is a render call too
     for j in range(20 if ctx.quick else 300):
         W, H = rng.choice([(20, 4), (30, 7)])
